@@ -337,6 +337,61 @@ def rule_xy_unclamped(ctx):
             ctx.ok(rid, "unlimited:%s" % f.path, "no clamp/min/max in the slice of the coordinates", nontrivial=True, fn=f)
 
 
+def rule_trc_present(ctx):
+    """a tone-curve tag counts as present whether or not its curve is one the parser recognises"""
+    rid = "R-TRC-PRESENT"
+    ctx.rule(rid, "detect_profile_info keeps two facts per r/g/b/kTRC tag: that the tag exists (`[bool; 4]`) and, if its curve has a "
+                  "recognised shape, which transfer function it is (`[Option<KnownIccTrc>; 4]`).  The profiles this library "
+                  "synthesises for PQ and HLG carry a sampled curve no shape test recognises and rely on the cicp tag, whose override "
+                  "is gated on the presence flags.  So the presence store must not depend on recognition: from the block that sets "
+                  "the flag a path leads on (to the next tag) that does not pass the store of the recognised curve.  Identified by "
+                  "type (the only bool-array and Option-array of length 4 written by index in the function)")
+    f = ctx.prog.crate("jxl_color").fn("jxl_color::icc::parse::detect_profile_info")
+    if f is None:
+        ctx.anchor_missing(rid, "jxl_color::icc::parse::detect_profile_info")
+        return
+    ctx.seen(f)
+    pres, curve = [], []
+    for b, blk in enumerate(f.blocks):
+        if blk[2]:
+            continue
+        for st in blk[0]:
+            if st[0] == "=" and len(st[1]) == 2 and isinstance(st[1][1], list) and st[1][1][0] == "[]":
+                ty = f.local_ty(st[1][0])
+                if ty == "[bool; 4]":
+                    pres.append(b)
+                elif ty.startswith("[core::option::Option<") and ty.endswith("; 4]") and "Trc" in ty:
+                    curve.append(b)
+    if not pres or not curve:
+        ctx.anchor_missing(rid, "indexed stores into the presence flags / recognised curves in detect_profile_info")
+        return
+    bad = []
+    for pb in pres:
+        if pb in curve:
+            bad.append(pb)
+            continue
+        # can the next iteration (any block that reaches pb again, or the function's exit) be reached from pb without a curve store?
+        seen, todo, free = set(), list(f.succs(pb)), False
+        while todo:
+            x = todo.pop()
+            if x in seen or f.is_cleanup(x) or x in curve:
+                continue
+            seen.add(x)
+            if x == pb or f.term(x)[0] == "ret":
+                free = True
+                break
+            todo.extend(f.succs(x))
+        if not free:
+            bad.append(pb)
+    if bad:
+        ctx.bad(rid, "presence-depends-on-recognition", "the tone-curve presence flag is only set on paths that also store a recognised curve: "
+                "a profile whose curve is a sampled table (the PQ / HLG profiles this library writes) never arms the cicp override and "
+                "does not parse back to its enum encoding", fn=f, pos=f.term_pos(bad[0]))
+    else:
+        ctx.ok(rid, "presence-independent", "%d presence store(s), each followed by a path that skips the recognised-curve store" % len(pres),
+               nontrivial=True, fn=f)
+
+
 def rule_tf_sign(ctx):
     """the two directions of each transfer curve treat negative samples alike"""
     import re
@@ -405,6 +460,7 @@ def main(pid, tier, repo=None):
     rule_cicp_layout(ctx)
     rule_xy_unclamped(ctx)
     rule_tf_sign(ctx)
+    rule_trc_present(ctx)
     ctx.not_decided("numerical tolerance statements over real-valued functions: that the synthesised profile parses back to an equivalent "
                     "encoding for custom chromaticities and arbitrary gamma, that each transfer function's two directions compose to the "
                     "identity and are monotone, no-op detection of equivalent encodings")
